@@ -486,7 +486,7 @@ def run(ctx: core.Ctx):
     if quick:
         plan = [("d2-quick", (0, 1, 2, 3), False, "mixed2+1", 500), ("d2-ops", (0, 1, 4), True, "all", 100)]
     else:
-        plan = [("d2-all-x-rep", (0, 1, 2, 3), False, "mixed2+1", 1000), ("d2-rep-x-all", (0, 1, 2, 3), False, "mixed1+1", 1000),
+        plan = [("d2-all-x-rep", (0, 1, 2, 3), False, "mixed1+1", 1000), ("d2-rep-x-all", (0, 1, 2, 3), False, "mixed1+1", 1000),
                 ("d2-quick", (0, 1, 2, 3), True, "mixed2+1", 300), ("d2-ops", (0, 1, 2, 3, 4, 5), True, "all", 100),
                 ("d3-ops", (0, 4, 1, 5), False, "1", 3000)]
     shards = []
